@@ -5,7 +5,7 @@
    returning a sorted permutation); the run driver instantiates them with Gcs/SipHash.v and the
    insertion sort of Gcs/Sort.v (proved to be one in Gcs/GcsSortProofs.v). *)
 From BU Require Import Lib.Bytes Gcs.SipHash Gcs.Sort Gcs.Gcs Gcs.GcsProofs Gcs.GcsBitsProofs
-  Gcs.GcsMatchProofs Gcs.GcsTheorems Gcs.GcsCostProofs Gcs.GcsSortProofs.
+  Gcs.GcsMatchProofs Gcs.GcsTheorems Gcs.GcsCostProofs Gcs.GcsSortProofs Gcs.BStream Gcs.BStreamProofs Gcs.SipHashVectors.
 From Coq Require Import Sorting.Sorted Sorting.Permutation.
 
 (* reading N values from the encoding of an ascending list returns its deltas (and leaves the rest) *)
@@ -107,12 +107,33 @@ Theorem C13_alloc_bound : forall f,
 Proof. exact alloc_bound. Qed.
 Print Assumptions C13_alloc_bound.
 
+(* the bit-list stream of the model is github.com/kkdai/bstream's byte/offset reader: reading one
+   Golomb-Rice code through ReadBit/ReadByte/ReadBits (EOF rules included) gives the same value, the
+   same EOF outcome and leaves the same unread bits, for every P up to 64 on every byte string *)
+Theorem C13_bstream_reader : forall P s, wf s -> P <= 64 ->
+  match read_full P (bits_of_state s) with
+  | None => bs_read_full P s = None
+  | Some (d, rest) => exists s', bs_read_full P s = Some (d, s') /\ bits_of_state s' = rest /\ wf s'
+  end.
+Proof. exact bs_read_full_spec. Qed.
+Print Assumptions C13_bstream_reader.
+
+Theorem C13_bstream_decode : forall P data last fuel, P <= 64 -> Bytes data ->
+  bs_decode_all fuel P (new_reader data) last = decode_all fuel P (bits_of_bytes data) last.
+Proof. exact stream_readers_agree. Qed.
+Print Assumptions C13_bstream_decode.
+
 (* the hypotheses are satisfiable: SipHash-2-4 (cut to 64 bits) and insertion sort *)
 Definition sip64 (k d : list N) : N := w64 (siphash k d).
 Example C13_hypotheses_met : hash_ok sip64 /\ sort_ok isort.
 Proof.
   split; [intros k d; apply N.mod_lt; discriminate | split; [exact isort_sorted | exact isort_perm]].
 Qed.
+
+(* the SipHash-2-4 model used by the run driver reproduces the 64 reference vectors *)
+Example C13_siphash_vectors :
+  map (fun n => siphash sip_ref_key (sip_ref_msg n)) (seq 0 64) = sip_ref_vectors.
+Proof. exact siphash_reference_vectors. Qed.
 
 Example C13_instance :
   let key := [0;1;2;3;4;5;6;7;8;9;10;11;12;13;14;15] in
